@@ -72,18 +72,21 @@ func runRetention(e *simcore.Env, tp *simcore.Tape) {
 		ttl := time.Duration(ttlDays) * 24 * time.Hour
 		root := filepath.Join(e.Dir, "db")
 		ctx := common.SetPosition(context.Background(), func(p common.Position) common.Position { p.Database = "db"; return p })
-		db, err := storage.OpenTSDB(ctx, storage.TSDBOpts[*tbl, int]{
-			Location: root, SegmentInterval: storage.IntervalRule{Unit: unit, Num: segNum}, TTL: storage.IntervalRule{Unit: storage.DAY, Num: ttlDays}, ShardNum: 1,
-			SegmentIdleTimeout: time.Hour,
-			TSTableCreator: func(fs.FileSystem, string, common.Position, *logger.Logger, timestamp.TimeRange, int, any) (*tbl, error) {
-				return &tbl{}, nil
-			},
-		}, nil, "g")
+		openDB := func(num int) (storage.TSDB[*tbl, int], error) {
+			return storage.OpenTSDB(ctx, storage.TSDBOpts[*tbl, int]{
+				Location: root, SegmentInterval: storage.IntervalRule{Unit: unit, Num: num}, TTL: storage.IntervalRule{Unit: storage.DAY, Num: ttlDays}, ShardNum: 1,
+				SegmentIdleTimeout: time.Hour,
+				TSTableCreator: func(fs.FileSystem, string, common.Position, *logger.Logger, timestamp.TimeRange, int, any) (*tbl, error) {
+					return &tbl{}, nil
+				},
+			}, nil, "g")
+		}
+		db, err := openDB(segNum)
 		if err != nil {
 			e.Fail("open", "open-failed", "open: %v", err)
 			return
 		}
-		defer db.Close()
+		defer func() { db.Close() }()
 		e.Event("interval=%d%s ttl=%dd", segNum, unit, ttlDays)
 		segs := map[int64]*segModel{} // by start
 		forcedBudget := 0             // segments forced cleanup was entitled to remove since the last check
@@ -266,8 +269,26 @@ func runRetention(e *simcore.Env, tp *simcore.Tape) {
 				}
 				synctest.Wait()
 				e.Event("tick x50 at %s", f(now))
-			default:
-				e.Event("noop")
+			default: // restart, possibly with the group's segment interval changed (same unit): what the segments on disk cover
+				// - and therefore when they expire - must not change
+				num := segNum
+				if tp.Side().Bool(1, 2) {
+					num = []int{1, 2, 3, 6, 12}[tp.Side().Choose(5)]
+				}
+				_ = db.Close()
+				synctest.Wait()
+				if db, err = openDB(num); err != nil {
+					e.Fail("open", "reopen-failed", "reopen with interval %d%s: %v", num, unit, err)
+					return
+				}
+				if num != segNum {
+					e.Probe("fault.restart_with_changed_segment_interval")
+				} else {
+					e.Probe("fault.restart")
+				}
+				e.Event("restart with interval %d%s (was %d%s)", num, unit, segNum, unit)
+				sample = append(sample, fmt.Sprintf("restart interval=%d", num))
+				segNum = num
 			}
 			check(fmt.Sprintf("after op %d", op))
 		}
